@@ -174,8 +174,8 @@ def run(ctx):
         t1 = _strip_base(Canon(cnt)([x for x in c1[0].c if x is not None][0]))
         t2 = _strip_base(Canon(tr)([x for x in c2[0].c if x is not None][0]))
         okp = t1 == t2
-    ctx.ob("R5.siblings", "leaf-predicate|%s:count_leaves/traverse" % FR, P.where(cnt.body),
-           "count_leaves (array sizes) and the walk (array indices) decide 'leaf' by the same predicate", okp)
+    _settle_leaf(ctx, "R5.siblings", "leaf-predicate|%s:count_leaves/traverse" % FR, P.where(cnt.body),
+                 "count_leaves (array sizes) and the walk (array indices) decide 'leaf' by the same predicate", okp, "")
 
     # ---- (4) growth: the two element-adding entry points, executed abstractly on a full schema (realloc
     # hooked, each of the four reallocations made to fail in turn): all four parallel arrays are regrown
@@ -387,9 +387,30 @@ def leaf_predicate_rule(ctx, rule="R5.siblings"):
         raise AnalysisBroken("leaf predicate of count_leaves / traverse_schema_recursive not found")
     t1 = _strip_base(Canon(cnt)([x for x in c1[0].c if x is not None][0]))
     t2 = _strip_base(Canon(tr)([x for x in c2[0].c if x is not None][0]))
-    ctx.ob(rule, "leaf-predicate-extent|%s:count_leaves/traverse" % FR, P.where(c2[0]),
-           "the arrays allocated for count_leaves() leaves are filled by a walk that decides 'leaf' by the same predicate",
-           t1 == t2, "%s / %s" % (show(t1), show(t2)))
+    _settle_leaf(ctx, rule, "leaf-predicate-extent|%s:count_leaves/traverse" % FR, P.where(c2[0]),
+                 "the arrays allocated for count_leaves() leaves are filled by a walk that decides 'leaf' by the same predicate",
+                 t1 == t2, "%s / %s" % (show(t1), show(t2)))
+
+
+def _settle_leaf(ctx, rule, key, where, what, same, detail):
+    """Two conditions that read the same are the same predicate. Two that read differently may still be (a lookup
+    table, a cached member): that is decided by executing build_schema on every small tree (C17.9) - sizes and
+    writes then agree or they do not. A textual difference alone is not a witness."""
+    from .. import report
+    if same:
+        ctx.ok(rule, key, where, what, detail)
+        return
+    bt = [o for o in ctx.obs if o.key.startswith("bounded-trees|")]
+    if not bt:
+        _bounded_trees(ctx)
+        bt = [o for o in ctx.obs if o.key.startswith("bounded-trees|")]
+    if bt and all(o.status == report.DISCHARGED for o in bt):
+        ctx.ok(rule, key, where, what, "the two conditions are spelled differently (%s); the leaf arrays are sized and filled consistently on every "
+               "tree of up to 5 elements (bounded-trees rule)" % detail[:120])
+    elif bt and any(o.status == report.VIOLATION for o in bt):
+        ctx.ok(rule, key, where, what, "spelled differently; the disagreement is reported by the bounded-trees rule", nontrivial=False)
+    else:
+        ctx.inconclusive(rule, key, where, what, "the two conditions are spelled differently: %s" % detail[:160])
 
 
 def _forests(n):
@@ -515,6 +536,53 @@ def _bounded_trees(ctx):
                     if (cnt != len(leaves) or beyond) and bad is None:
                         bad = "%s: a leaf array was requested with %s entries and written up to byte %s; the tree has %d leaves" % (
                             sc, cnt, max(beyond) if beyond else "-", len(leaves))
+        # malformed child counts (negative, larger than what is left): the leaves are then not defined by the format,
+        # but whatever build_schema makes of them, the leaf arrays are as long as the count it reports and nothing is
+        # written past them
+        for size in range(1, 4):
+            for forest in _forests(size):
+                for pos in range(size):
+                    for wrong in (-1, 1000):
+                        n += 1
+                        f2 = list(forest)
+                        f2[pos] = wrong
+                        heap0 = {("md", mo["schema"]): Ptr("el", 0, esz), ("md", mo["num_schema_elements"]): size + 1}
+                        for k_, off in eo.items():
+                            heap0[("el", off)] = 0
+                        heap0[("el", eo["num_children"])] = _top(forest)
+                        for i in range(size):
+                            base = (i + 1) * esz
+                            for k_, off in eo.items():
+                                heap0[("el", base + off)] = 0
+                            heap0[("el", base + eo["has_repetition"])] = 1
+                            heap0[("el", base + eo["repetition_type"])] = ROT[i % 3]
+                            heap0[("el", base + eo["num_children"])] = f2[i]
+                            if "has_num_children" in eo:
+                                heap0[("el", base + eo["has_num_children"])] = 1
+                        na = [0]
+                        asked = {}
+
+                        def alloc2(ev, a, it):
+                            total = a[1] * a[2] if isinstance(a[1], int) and isinstance(a[2], int) else U
+                            if total == 0:
+                                return 0
+                            na[0] += 1
+                            asked["a%d" % na[0]] = (a[1], a[2])
+                            return Ptr("a%d" % na[0], 0, 1)
+                        ret, ev, heap = sem.run(P, bs, [Ptr("arena", 0, 1), Ptr("md", 0, 1), 0], heap0=heap0,
+                                                hooks={"carquet_arena_calloc": alloc2, "carquet_error_set": lambda ev, a, it: None}, single=True,
+                                                max_forks=16, budget=300000, inline_depth=12, on_start=lambda: (na.__setitem__(0, 0), asked.clear()))
+                        if not isinstance(ret, Ptr):
+                            continue        # refused: fine
+                        sc = "tree with child counts %s (root: %d), one of them malformed" % (f2, _top(forest))
+                        for m_, esz_ in (("leaf_indices", 4), ("max_def_levels", 2), ("max_rep_levels", 2)):
+                            arr = heap.get((ret.base, so[m_]))
+                            if not isinstance(arr, Ptr):
+                                continue
+                            cnt = asked.get(arr.base, (0, 0))[0]
+                            beyond = [o for (b, o) in heap if b == arr.base and isinstance(o, int) and o >= cnt * esz_]
+                            if beyond and bad is None:
+                                bad = "%s: %s was requested with %s entries and is written at byte %d" % (sc, m_, cnt, max(beyond))
     except (sem.Inconclusive, KeyError) as ex:
         ctx.inconclusive("R5.spec", key, P.where(bs.body), what, "%s: %s" % (type(ex).__name__, ex))
         return
